@@ -25,7 +25,7 @@ Proof.
   all: unfold written in *; try congruence.
 Qed.
 
-Ltac sflds := cbn [hot snap flushing installed files wal acked pph rph].
+Ltac sflds := cbn [hot snap flushing installed files wal acked pph rph closedseg].
 
 Lemma in_visible s p :
   In p (visible s) <-> In p (hot s) \/ (exists l, snap s = Some l /\ In p l) \/ In p (concat (files s)).
@@ -44,7 +44,7 @@ Proof. rewrite concat_app, in_app_iff. cbn. rewrite app_nil_r. tauto. Qed.
 (* membership in the file layer and in the visible set never shrinks *)
 Lemma sexec_files_mono a s p : In p (concat (files s)) -> In p (concat (files (sexec a s))).
 Proof.
-  intros H. unfold sexec. destruct a; cbn [sexec_with];
+  intros H. unfold sexec, sexec_with. destruct a; cbn [sexec_with2];
     repeat match goal with
            | |- context[match ?x with _ => _ end] => destruct x
            end; sflds; auto.
@@ -52,8 +52,8 @@ Proof.
   - cbn. rewrite app_nil_r. exact H.
 Qed.
 
-Ltac vis := rewrite in_visible; cbn [hot snap flushing installed files wal acked pph rph].
-Ltac vis_in H := rewrite in_visible in H; cbn [hot snap flushing installed files wal acked pph rph] in H.
+Ltac vis := rewrite in_visible; cbn [hot snap flushing installed files wal acked pph rph closedseg].
+Ltac vis_in H := rewrite in_visible in H; cbn [hot snap flushing installed files wal acked pph rph closedseg] in H.
 
 Lemma sexec_inv a s : sinv s -> sinv (sexec a s).
 Proof.
@@ -71,11 +71,11 @@ Proof.
     - intros q Hq. apply Ev, Sv, Hq.
     - intros q Hq. apply Sv', Ev, Hq.
     - intros r must Hr q Hq. apply Ev. eapply B; eauto. }
-  unfold sexec. destruct a as [p|p|p| | | | |r|r|r]; cbn [sexec_with].
+  unfold sexec, sexec_with. destruct a as [p|p|p| | | | | |r|r|r]; cbn [sexec_with2].
   - (* SCacheW *)
     destruct (pph s p) eqn:Ep; try exact I.
     assert (Vm : forall q, In q (visible s) ->
-                 In q (visible (mkS (p :: hot s) (snap s) (flushing s) (installed s) (files s) (wal s) (acked s) (upd (pph s) p PCached) (rph s)))).
+                 In q (visible (mkS (p :: hot s) (snap s) (flushing s) (installed s) (files s) (wal s) (acked s) (upd (pph s) p PCached) (rph s) (closedseg s)))).
     { intros q Hq. vis. vis_in Hq. cbn. tauto. }
     constructor; sflds; [ | | | exact Sf | exact Ss | exact Si | exact Si' | | exact Rc | exact Rd ].
     + intros q Hq. unfold upd in Hq. destruct (N.eqb_spec q p) as [?E|]; [subst q|]; [vis; cbn; auto|].
@@ -102,7 +102,7 @@ Proof.
       destruct (N.eqb_spec q p) as [?E|]; [subst q|]; [reflexivity|auto].
   - (* SSnapBegin *)
     destruct (snap s) as [l|] eqn:Es; [exact I|].
-    assert (Ev : forall q, In q (visible (mkS [] (Some (hot s)) (Some (hot s)) false (files s) (wal s) (acked s) (pph s) (rph s)))
+    assert (Ev : forall q, In q (visible (mkS [] (Some (hot s)) (Some (hot s)) false (files s) [] (acked s) (pph s) (rph s) (closedseg s ++ wal s)))
                            <-> In q (visible s)).
     { intros q. vis. rewrite (in_visible s), Es. split.
       - intros [H|[[l [E H]]|H]]; [contradiction|inversion E; subst; auto|auto].
@@ -117,11 +117,13 @@ Proof.
       | intros; discriminate
       | intros r must Hr q Hq; apply Ev; eapply Rb; eauto
       | exact Rc | exact Rd ].
+  - (* SSnapCloseSeg: nothing to do in the one-section code *)
+    exact I.
   - (* SSnapInstall *)
     destruct (flushing s) as [l|] eqn:Ef; [|exact I].
     destruct (installed s) eqn:Ei; [exact I|].
     pose proof (Sf l eq_refl) as Es.
-    assert (Ev : forall q, In q (visible (mkS (hot s) (snap s) (Some l) true (files s ++ [l]) (wal s) (acked s) (pph s) (rph s)))
+    assert (Ev : forall q, In q (visible (mkS (hot s) (snap s) (Some l) true (files s ++ [l]) (wal s) (acked s) (pph s) (rph s) (closedseg s)))
                            <-> In q (visible s)).
     { intros q. vis. rewrite (in_visible s), concat_app_single, Es. split; [|tauto].
       intros [H|[H|[H|H]]]; auto. right; left; eauto. }
@@ -139,7 +141,7 @@ Proof.
     destruct (flushing s) as [l|] eqn:Ef; [|exact I].
     destruct (installed s) eqn:Ei; [|exact I].
     pose proof (Sf l eq_refl) as Es. pose proof (Si l eq_refl eq_refl) as Hl.
-    assert (Ev : forall q, In q (visible (mkS (hot s) None None false (files s) (wal s) (acked s) (pph s) (rph s)))
+    assert (Ev : forall q, In q (visible (mkS (hot s) None None false (files s) (wal s) (acked s) (pph s) (rph s) []))
                            <-> In q (visible s)).
     { intros q. vis. rewrite (in_visible s), Es. split.
       - intros [H|[[l0 [E _]]|H]]; [auto|discriminate|auto].
@@ -190,7 +192,7 @@ Proof. apply run_trace_inv. intros; apply sexec_inv; assumption. Qed.
 (* acknowledgements are never withdrawn *)
 Lemma sexec_acked_mono a s p : In p (acked s) -> In p (acked (sexec a s)).
 Proof.
-  intros H. unfold sexec. destruct a; cbn [sexec_with];
+  intros H. unfold sexec, sexec_with. destruct a; cbn [sexec_with2];
     repeat match goal with
            | |- context[match ?x with _ => _ end] => destruct x
            end; sflds; auto.
@@ -208,9 +210,9 @@ Definition must_of (ph : rphase) : option (list N) :=
 
 Lemma sexec_must_stable a s r m : must_of (rph s r) = Some m -> must_of (rph (sexec a s) r) = Some m.
 Proof.
-  intros H. unfold sexec.
-  destruct a as [p|p|p| | | | |r0|r0|r0]; cbn [sexec_with].
-  1-7: repeat match goal with
+  intros H. unfold sexec, sexec_with.
+  destruct a as [p|p|p| | | | | |r0|r0|r0]; cbn [sexec_with2].
+  1-8: repeat match goal with
               | |- context[match ?x with _ => _ end] => destruct x
               end; sflds; exact H.
   all: destruct (rph s r0) eqn:E; sflds; try exact H;
@@ -239,3 +241,100 @@ Lemma install_before_clear_ok :
   rph (run_trace sexec [SCacheW 1; SWalW 1; SAck 1; SSnapBegin; SSnapInstall; SRBegin 9; SRCache 9; SSnapClear; SRFiles 9] sinit) 9
   = RDone [1] [1; 1].
 Proof. vm_compute. reflexivity. Qed.
+
+(* ---------- what is on disk covers every logged write ---------- *)
+(* The TSM files, the current WAL segment and the closed segments that the running
+   snapshot will remove once it is committed together hold every write that reached the
+   WAL - in particular every acknowledged write survives a restart. *)
+Record dinv (s : sstate) : Prop := mkDinv {
+  d_logged : forall p, (pph s p = PLogged \/ pph s p = PAcked) ->
+             In p (concat (files s)) \/ In p (wal s) \/ In p (closedseg s);
+  d_wal : forall p, In p (wal s) -> In p (visible s);
+  d_closed : forall p, In p (closedseg s) ->
+             (exists l, flushing s = Some l /\ In p l) \/ In p (concat (files s))
+}.
+
+Lemma dinv_init : dinv sinit.
+Proof. constructor; cbn; intros; try contradiction. destruct H; discriminate. Qed.
+
+Lemma sexec_dinv a s : sinv s -> dinv s -> dinv (sexec a s).
+Proof.
+  intros I D0. pose proof D0 as [Dl Dw Dc]. pose proof I as [Sv Sv' Sa Sf Ss Si Si' Rb Rc Rd].
+  pose proof (sexec_inv a s I) as I'.
+  unfold sexec, sexec_with in *. destruct a as [p|p|p| | | | | |r|r|r]; cbn [sexec_with2] in *.
+  - (* SCacheW *)
+    destruct (pph s p) eqn:Ep; try (exact D0).
+    constructor; sflds.
+    + intros q Hq. unfold upd in Hq. destruct (N.eqb_spec q p) as [E|]; [destruct Hq; discriminate|auto].
+    + intros q Hq. rewrite in_visible. sflds. apply Dw in Hq. rewrite in_visible in Hq. cbn. tauto.
+    + exact Dc.
+  - (* SWalW *)
+    destruct (pph s p) eqn:Ep; try (exact D0).
+    constructor; sflds.
+    + intros q Hq. unfold upd in Hq. destruct (N.eqb_spec q p) as [E|]; [subst; right; left; left; reflexivity|].
+      destruct (Dl q Hq) as [H|[H|H]]; auto. right; left; right; exact H.
+    + intros q [E|Hq]; [subst q|].
+      * change (In p (visible s)). apply Sv. rewrite Ep. unfold written. discriminate.
+      * change (In q (visible s)). auto.
+    + exact Dc.
+  - (* SAck *)
+    destruct (pph s p) eqn:Ep; try (exact D0).
+    constructor; sflds; [|exact Dw|exact Dc].
+    intros q Hq. unfold upd in Hq. destruct (N.eqb_spec q p) as [E|]; [subst; apply Dl; left; exact Ep|auto].
+  - (* SSnapBegin *)
+    destruct (snap s) as [l|] eqn:Es; [exact D0|].
+    assert (Ef : flushing s = None).
+    { destruct (flushing s) as [l|] eqn:E; [|reflexivity]. pose proof (Sf l eq_refl). congruence. }
+    constructor; sflds.
+    + intros q Hq. destruct (Dl q Hq) as [H|[H|H]]; auto; right; right; apply in_or_app; auto.
+    + intros q [].
+    + intros q Hq. apply in_app_or in Hq. destruct Hq as [Hq|Hq].
+      * destruct (Dc q Hq) as [[l [E _]]|H]; [congruence|auto].
+      * apply Dw in Hq. rewrite in_visible, Es in Hq. destruct Hq as [H|[[l [E _]]|H]]; [left; eauto|discriminate|auto].
+  - (* SSnapCloseSeg *)
+    exact D0.
+  - (* SSnapInstall *)
+    destruct (flushing s) as [l|] eqn:Ef; [|exact D0].
+    destruct (installed s) eqn:Ei; [exact D0|].
+    constructor; sflds.
+    + intros q Hq. destruct (Dl q Hq) as [H|[H|H]]; auto. left. apply concat_app_single; auto.
+    + intros q Hq. apply (s_vis' _ I') in Hq || idtac. change (In q (visible (sexec_with2 true true SSnapInstall s))) || idtac.
+      pose proof (Dw q Hq) as Hv. rewrite in_visible in *. sflds. rewrite concat_app_single. tauto.
+    + intros q Hq. destruct (Dc q Hq) as [[l0 [E H]]|H]; [left; eauto|right; apply concat_app_single; auto].
+  - (* SSnapClear *)
+    destruct (flushing s) as [l|] eqn:Ef; [|exact D0].
+    destruct (installed s) eqn:Ei; [|exact D0].
+    pose proof (Si l eq_refl eq_refl) as Hl. pose proof (Sf l eq_refl) as Es.
+    constructor; sflds.
+    + intros q Hq. destruct (Dl q Hq) as [H|[H|H]]; auto.
+      destruct (Dc q H) as [[l0 [E H0]]|H0]; [inversion E; subst; left; apply Hl, H0|auto].
+    + intros q Hq. pose proof (Dw q Hq) as Hv. rewrite in_visible in *. sflds. rewrite Es in Hv.
+      destruct Hv as [H|[[l0 [E H]]|H]]; auto. inversion E; subst. right; right; apply Hl, H.
+    + intros q [].
+  - (* SCompact *)
+    assert (Ec : concat [concat (files s)] = concat (files s)) by (cbn; apply app_nil_r).
+    constructor; sflds; rewrite ?Ec; auto.
+    intros q Hq. pose proof (Dw q Hq) as Hv. rewrite in_visible in *. sflds. rewrite Ec. exact Hv.
+  - destruct (rph s r); try exact D0; constructor; sflds; [exact Dl|exact Dw|exact Dc].
+  - destruct (rph s r); try exact D0; constructor; sflds; [exact Dl|exact Dw|exact Dc].
+  - destruct (rph s r); try exact D0; constructor; sflds; [exact Dl|exact Dw|exact Dc].
+Qed.
+
+Lemma shard_trace_dinv tr : sinv (run_trace sexec tr sinit) /\ dinv (run_trace sexec tr sinit).
+Proof.
+  assert (G : forall tr s, sinv s -> dinv s -> sinv (run_trace sexec tr s) /\ dinv (run_trace sexec tr s)).
+  { induction tr0 as [|a tr0 IH]; intros s I D; [split; assumption|].
+    cbn. apply IH; [apply sexec_inv, I|apply sexec_dinv; assumption]. }
+  apply G; [apply sinv_init|apply dinv_init].
+Qed.
+
+(* WriteSnapshot in two critical sections (cache snapshot, later the segment roll-over): a
+   write acknowledged in between is only in the live cache and in a segment that the
+   commit of this snapshot removes *)
+Definition split_snapshot_trace : list sact :=
+  [SSnapBegin; SCacheW 1; SWalW 1; SAck 1; SSnapCloseSeg; SSnapInstall; SSnapClear].
+
+Lemma split_snapshot_loses_write :
+  let s := run_trace (sexec_with2 false true) split_snapshot_trace sinit in
+  acked s = [1] /\ concat (files s) = [] /\ wal s = [] /\ closedseg s = [] /\ hot s = [1].
+Proof. vm_compute. repeat split. Qed.
